@@ -44,6 +44,11 @@ def same_target(a, b):
     return urlsplit(ua).geturl() == urlsplit(ub).geturl() and fa == fb
 
 
+def ptr_token(name):
+    """A member name as a JSON-pointer token inside a URI fragment (RFC 6901 escapes, then %)."""
+    return name.replace("~", "~0").replace("/", "~1").replace("%", "%25")
+
+
 def spellings(base, target_url, frag):
     """All reference strings that, joined to `base`, designate target_url#frag."""
     fragpart = ("#" + frag) if frag else ""
@@ -97,6 +102,8 @@ def default_knobs(rng, **over):
         regex_boost=False,
         decimal_floats=rng.random() < 0.1,
         deep_instance=False,
+        tricky_names=rng.random() < 0.2,
+        touchy_instances=rng.random() < 0.1,
     )
     k.update(over)
     return k
@@ -143,6 +150,19 @@ class WorldGen(object):
         for h in homes:
             self.names.append("n%d" % count.get(h, 0))
             count[h] = count.get(h, 0) + 1
+        if k.get("tricky_names"):
+            # definition names that need escaping in a JSON pointer / URI fragment, in pairs where the escaped form
+            # of one is the literal text of the other ("~1" is written ~01, "/" is written ~1; "p%q" is written
+            # p%25q): decoding once too often, or not at all, lands on the sibling
+            byhome = {}
+            for i, h in enumerate(homes):
+                byhome.setdefault(h, []).append(i)
+            for h in sorted(byhome):
+                pool = rng.choice([["~1", "/"], ["~0", "~"], ["a/b", "a~1b"], ["p%q", "p%25q"], ["m~n", "sp ace"]])
+                if rng.random() < 0.5:
+                    pool = pool[::-1]
+                for j, i in enumerate(byhome[h][:2]):
+                    self.names[i] = pool[j]
         self.custom = None
         if k.custom_types or k.custom_keywords:
             self.custom = {"types": ["even", "nonempty"] if k.custom_types else [],
@@ -227,6 +247,7 @@ class WorldGen(object):
             "store_docs": store_docs, "store_keys": store_keys, "custom": self.custom, "formats": self.formats,
             "homes": homes, "instances": instances, "reflog": self.reflog, "triggers": self.triggers,
             "decimal_floats": bool(k.get("decimal_floats")),
+            "touchy_instances": bool(k.get("touchy_instances")),
         }
 
     def top_level(self, base):
@@ -263,7 +284,7 @@ class WorldGen(object):
     def ref_to_def(self, base, j):
         home = self.homes[j]
         url = self.root_url if home == "root" else home
-        sp = spellings(base, url, "/definitions/" + self.names[j])
+        sp = spellings(base, url, "/definitions/" + ptr_token(self.names[j]))
         if not sp:
             return None
         r = self.rng.choice(sp)
